@@ -254,7 +254,9 @@ class ConnectionPool(object):
             except KeyError:
                 return
             else:
-                yield from release_task
+                # The releases belong to other clients: cancelling this
+                # client must not cancel them
+                yield from asyncio.shield(release_task)
 
     @asyncio.coroutine
     def session(self, host: str, port: int, use_ssl: bool=False):
